@@ -10,15 +10,15 @@ import (
 
 // Parsed is the reference reading of a byte string.
 type Parsed struct {
-	MetaOK   bool // magic and every metadata chunk valid: Reset is delivered
-	OK       bool // the whole string is well formed
-	Calls    []rec.Call
-	VB       ivg.ViewBox
-	Pal      [64]color.RGBA
-	MetaLen  int    // bytes of magic + metadata
-	Reason   string // why it was rejected
-	MIDOrder bool   // metadata would be valid but for repeated / descending MIDs
-	EndsInPath bool // accepted, but the stream ends inside a path
+	MetaOK        bool // magic and every metadata chunk valid: Reset is delivered
+	OK            bool // the whole string is well formed
+	Calls         []rec.Call
+	VB            ivg.ViewBox
+	Pal           [64]color.RGBA
+	MetaLen       int    // bytes of magic + metadata
+	Reason        string // why it was rejected
+	MIDOrder      bool   // metadata would be valid but for repeated / descending MIDs
+	EndsInPath    bool   // accepted, but the stream ends inside a path
 	HasVB, HasPal bool
 }
 
